@@ -36,6 +36,19 @@ def generate(tier, seed):
                 ad = adapter_X(ad, script)
             cases.append(case("eng", sp, ad, "-", steps))
             dist["sync_histories"] += 1
+    # two policy types per section sharing names (a filtered removal on one type must not touch the sibling's lines)
+    sp = multi_spec()
+    al = multi_alphabet()
+    for k in (1, 2):
+        hs = list(itertools.product(al, repeat=k))
+        if k == 2 and tier == "quick":
+            hs = rnd.sample(hs, 500)
+        for h in hs:
+            steps = []
+            for o in h:
+                steps += [o, "?ga:p", "?ga:g", "?rv"]
+            cases.append(case("eng", sp, adapter_M(multi_lines()), "-", steps))
+            dist["sync_histories"] += 1
     # round trips
     K = kinds(("AO",))
     d = K["rbac_res"]
